@@ -11,6 +11,7 @@ import math
 
 from .. import gen
 from .. import refmodel as M
+from .. import salt as SALT
 
 ID = "C11"
 LEVEL = "exploration"
@@ -84,6 +85,8 @@ def judge(case, rep, S):
     N = len(seq)
     rng = gen.sub_rng(case["o"], ID)
     obj = SP(seq)
+    if rng.random() < 0.2:
+        SALT.salt(S, obj, seq, rng, rep, cheap=N > 100)
     prev_user = False
     for cfg in range(8):
         t = rng.choice(["WF", "LC", "LZW"])
@@ -92,7 +95,7 @@ def judge(case, rep, S):
         size = rng.choice(SIZES)
         w = rng.randint(1, N) if rng.random() < 0.8 else rng.choice([1, N, min(N, 10), max(1, N - 1)])
         if case.get("long"):
-            w = rng.choice([255, 256, 257, 300, 400, 512, 640, N])
+            w = rng.choice([x for x in (255, 256, 257, 300, 400, 512, 640, N) if x <= N])
             rep.cnt("windows_ge_255")
         s = rng.randint(1, N) if rng.random() < 0.5 else rng.choice([1, 1, 2, 3])
         ws = 3 if rng.random() < 0.5 else rng.randint(1, 6)
